@@ -114,6 +114,8 @@ impl QuerySpec {
         for (i, f) in self.from.iter().enumerate() {
             if i == 0 {
                 s.push_str(&format!("{} AS {}", f.table, f.alias));
+            } else if f.kind == "CROSS JOIN" {
+                s.push_str(&format!(" CROSS JOIN {} AS {}", f.table, f.alias));
             } else {
                 s.push_str(&format!(
                     " {} {} AS {} ON {}",
